@@ -295,6 +295,10 @@ def fold_new_helpers(tree: ast.Module, module: str, known: set[tuple[str, str]] 
                     _fold_expression_function(fn, body[0].value, refs, parents, is_method, static)
                     how = 'expression'
                 else:
+                    if _hoist_test_calls(fn, refs, parents):
+                        changed = True
+                        log.append(f'{module}:{qn} calls in if-tests hoisted into statement position')
+                        break  # parents changed: restart this round, the helper is folded next time round
                     _fold_statement_function(fn, body, refs, parents, is_method, static)
                     how = 'statement'
             except NotInlinable as e:
@@ -394,7 +398,22 @@ def _fold_statement_function(fn, body: list[ast.stmt], refs: list[ast.AST], pare
                 val = r.value if r.value is not None else ast.Constant(value=None)
                 return [ast.copy_location(ast.Assign(targets=[copy.deepcopy(target)], value=val), r)]
 
-            spliced = prelude + _elim_returns(new_body, on_return)
+            try:
+                lowered = _elim_returns(new_body, on_return)
+            except NotInlinable:
+                lowered = None
+            if lowered is None:
+                _COUNTER[0] += 1
+                flag = f'__inl_done_{_COUNTER[0]}'
+                body2, _ = _lower_with_flag([_Subst(mapping, rename).visit(copy.deepcopy(s)) for s in body], on_return, flag, False, stmt)
+                init = [ast.copy_location(ast.Assign(targets=[ast.Name(id=flag, ctx=ast.Store())], value=ast.Constant(value=False)), stmt)]
+                if target is not None:
+                    init.insert(0, ast.copy_location(ast.Assign(targets=[copy.deepcopy(target)], value=ast.Constant(value=None)), stmt))
+                spliced = prelude + init + body2
+                i = next(k for k, x in enumerate(blk) if x is stmt)
+                blk[i:i + 1] = spliced
+                continue
+            spliced = prelude + lowered
             if target is not None and not _always_returns(new_body):
                 # falling off the end returns None: only sound to add when no return was reached; the guard-clause elimination put every
                 # return in a terminal position, so a trailing default assignment would overwrite: prepend the default instead
@@ -472,6 +491,101 @@ def find_in_copy(stmts):
 def yield_value(stmts, i, j):
     y = stmts[i].value if j is None else stmts[i].body[j].value
     return y.value
+
+
+_COUNTER = [0]
+
+
+def _lower_with_flag(stmts: list[ast.stmt], on_return, flag: str, in_loop: bool, loc: ast.AST) -> tuple[list[ast.stmt], bool]:
+    """General return elimination: `return v` -> `<target> = v; flag = True [; break]`, and everything that would run after a statement
+    that may have returned is wrapped in `if not flag:`.  Works through if / try / with / loops (not through a `finally` that returns)."""
+    out: list[ast.stmt] = []
+
+    def not_flag():
+        return ast.UnaryOp(op=ast.Not(), operand=ast.Name(id=flag, ctx=ast.Load()))
+
+    for i, st in enumerate(stmts):
+        may = False
+        if isinstance(st, ast.Return):
+            out.extend(on_return(st))
+            out.append(ast.copy_location(ast.Assign(targets=[ast.Name(id=flag, ctx=ast.Store())], value=ast.Constant(value=True)), st))
+            if in_loop:
+                out.append(ast.copy_location(ast.Break(), st))
+            return out, True
+        if isinstance(st, FuncNode + (ast.ClassDef,)) or not _contains_return(st):
+            out.append(st)
+            continue
+        if isinstance(st, ast.If):
+            st.body, m1 = _lower_with_flag(st.body, on_return, flag, in_loop, loc)
+            st.orelse, m2 = _lower_with_flag(st.orelse, on_return, flag, in_loop, loc)
+            may = m1 or m2
+        elif isinstance(st, ast.Try):
+            if any(_contains_return(x) for x in st.finalbody):
+                raise NotInlinable('return inside a finally block')
+            st.body, m1 = _lower_with_flag(st.body, on_return, flag, in_loop, loc)
+            m2 = False
+            for h in st.handlers:
+                h.body, mh = _lower_with_flag(h.body, on_return, flag, in_loop, loc)
+                m2 = m2 or mh
+            st.orelse, m3 = _lower_with_flag(st.orelse, on_return, flag, in_loop, loc)
+            if m1 and st.orelse:
+                st.orelse = [ast.copy_location(ast.If(test=not_flag(), body=st.orelse, orelse=[]), st)]
+            may = m1 or m2 or m3
+        elif isinstance(st, (ast.With, ast.AsyncWith)):
+            st.body, may = _lower_with_flag(st.body, on_return, flag, in_loop, loc)
+        elif isinstance(st, (ast.For, ast.AsyncFor, ast.While)):
+            st.body, m1 = _lower_with_flag(st.body, on_return, flag, True, loc)
+            if st.orelse and _contains_return(ast.Module(body=st.orelse, type_ignores=[])):
+                raise NotInlinable('return inside a loop else clause')
+            may = m1
+            out.append(st)
+            if may and in_loop:
+                out.append(ast.copy_location(ast.If(test=ast.Name(id=flag, ctx=ast.Load()), body=[ast.Break()], orelse=[]), st))
+            rest, m_rest = _lower_with_flag(stmts[i + 1:], on_return, flag, in_loop, loc)
+            if rest:
+                out.append(ast.copy_location(ast.If(test=not_flag(), body=rest, orelse=[]), st))
+            return out, may or m_rest
+        else:
+            raise NotInlinable(f'return inside {type(st).__name__}')
+        out.append(st)
+        if may:
+            rest, m_rest = _lower_with_flag(stmts[i + 1:], on_return, flag, in_loop, loc)
+            if rest:
+                out.append(ast.copy_location(ast.If(test=not_flag(), body=rest, orelse=[]), st))
+            return out, True
+    return out, False
+
+
+def _hoist_test_calls(fn, refs: list[ast.AST], parents) -> bool:
+    """`if [not] [await] helper(args):`  ->  `__inl_ret_k = [await] helper(args)` + `if [not] __inl_ret_k:` so the call sits in statement position."""
+    changed = False
+    for r in refs:
+        p = parents.get(id(r))
+        if not (isinstance(p, ast.Call) and p.func is r):
+            continue
+        node: ast.AST = p
+        up = parents.get(id(node))
+        if isinstance(up, ast.Await):
+            node, up = up, parents.get(id(up))
+        holder = up
+        if isinstance(holder, ast.UnaryOp) and isinstance(holder.op, ast.Not):
+            holder = parents.get(id(holder))
+        if isinstance(holder, ast.If) and (holder.test is node or holder.test is up):
+            blk = _containing_block(holder, parents)
+            if blk is None:
+                continue
+            _COUNTER[0] += 1
+            name = f'__inl_ret_{_COUNTER[0]}'
+            asg = ast.copy_location(ast.Assign(targets=[ast.Name(id=name, ctx=ast.Store())], value=node), holder)
+            ref = ast.copy_location(ast.Name(id=name, ctx=ast.Load()), node)
+            if holder.test is node:
+                holder.test = ref
+            else:
+                holder.test.operand = ref  # type: ignore[union-attr]
+            i = next(k for k, x in enumerate(blk) if x is holder)
+            blk.insert(i, asg)
+            changed = True
+    return changed
 
 
 def _always_returns(stmts: list[ast.stmt]) -> bool:
